@@ -4,7 +4,7 @@
    "every iteration order / registration order" is "every permutation of the method list". *)
 From Coq Require Import ZArith List Bool Arith Permutation.
 Import ListNotations.
-From OvldV Require Import Model.Order Model.Ty Model.Codec Model.Resolve Spec.Dispatch Proofs.ResolveStatic Proofs.ResolveChain Gen.Leaf Proofs.LeafAgree.
+From OvldV Require Import Model.Order Model.Ty Model.Codec Model.Resolve Spec.Dispatch Proofs.ResolveStatic Proofs.ResolveChain Gen.Leaf Proofs.LeafOrder Proofs.LeafCand.
 
 Definition Refl (sub : nat -> nat -> bool) := forall c, sub c c = true.
 Definition Antisym (sub : nat -> nat -> bool) := forall c d, sub c d = true -> sub d c = true -> c = d.
